@@ -104,6 +104,10 @@ def parse(text: str) -> list:
     i = 0
     while i < len(lines):
         ln = lines[i]
+        mc = re.match(r"^const ([\w:]+): (.*) = \{$", ln)
+        if mc:
+            # a constant item with a body: parsed like a nullary function named `const <NAME>`
+            lines[i] = ln = f"fn const {mc.group(1)}() -> {mc.group(2)} {{"
         if ln.startswith("fn ") and ln.rstrip().endswith("{"):
             j = i + 1
             while j < len(lines) and lines[j] != "}":
